@@ -123,7 +123,7 @@ class Ctx:
             rdir.mkdir(parents=True, exist_ok=True)
             seen = set()
             for i, v in enumerate(self.violations[:20]):
-                path = rdir / f"{self.tier}-{self.seed}-{i}.json"
+                path = rdir / f"{getattr(self, 'file_tag', self.tier)}-{self.seed}-{i}.json"
                 with open(path, "w") as fh:
                     json.dump(v, fh, indent=1, default=_js)
                 key = (v["property"], v["clause"])
